@@ -309,6 +309,21 @@ def drops(F, R):
 
 
 def check(F, R, tier):
+    # F20b: an index obtained from `.enumerate()` and used to address the enumerated collection (remove / index) is an index INTO that collection:
+    # enumerate is applied before any index-shifting adaptor (skip, filter, rev, step_by ..); otherwise the wrong entry is removed
+    n_en = 0
+    for f_ in F.fn_list:
+        if not f_.crate.startswith('iceoryx2') or f_.crate == 'iceoryx2_ffi_c':
+            continue
+        for e_ in f_.calls(r'Iterator::enumerate$'):
+            n_en += 1
+            t_ = sym_nstr(sym(f_, e_.args[0]))
+            mm = re.search(r'\b(skip|filter|rev|skip_while|step_by|filter_map)\(', t_)
+            coll = re.search(r'iter(?:_mut)?\(([^(),]+)', t_)
+            uses = bool(coll) and any(re.search(r'::(remove|swap_remove)$', c_.callee or '') and sym_nstr(sym(f_, c_.args[0])) == coll.group(1) for c_ in f_.sites if c_.is_call and c_.args)
+            if mm or 'to_be_removed_connections' in t_:
+                R.ob('PATTERN', 'PATTERN::%s::enumerate-before-%s' % (fnkey(f_), mm.group(1) if mm else 'adaptors'), not (mm and uses), 'enumerate(%s)%s' % (t_[:100], ' ; the index is used to remove from the same collection: it must be the absolute index (enumerate first, then skip)' if uses else ''), e_.where, f_)
+    R.floor('enumerate() calls examined', n_en, 15)
     # F19b: the connection identifies a chunk by offset / sample_size: the size passed with a send is the chunk size of the segment
     for f_ in F.find_fns(r'^iceoryx2::port::details::sender::Sender::<.*>::deliver_offset_to_connection_impl$'):
         for c_ in f_.calls(SEND_RE):
